@@ -98,13 +98,18 @@ macro_rules! c06a_mod_exact {
             let r: $r = kani::any();
             let q: i64 = kani::any();
             let m0: i64 = kani::any();
-            let (li, ri, qi, mi) = (l as i128, r as i128, q as i128, m0 as i128);
+            let (li, ri) = (l as i64, r as i64);
             kani::assume(ri != 0);
-            let ar = if ri < 0 { -ri } else { ri };
-            let am = if mi < 0 { -mi } else { mi };
-            kani::assume(am < ar);
-            kani::assume(mi == 0 || (mi < 0) == (li < 0));
-            kani::assume(qi * ri + mi == li);
+            // |m0| < |r| and sign(m0) in {0, sign(l)} without leaving i64: compare in the negative half
+            let nr = if ri > 0 { -ri } else { ri };
+            let nm = if m0 > 0 { -m0 } else { m0 };
+            kani::assume(nm > nr);
+            kani::assume(m0 == 0 || (m0 < 0) == (li < 0));
+            // q*r + m0 == l with every intermediate representable (true for the real quotient: |q*r| <= |l|)
+            let (p, o1) = q.overflowing_mul(ri);
+            kani::assume(!o1);
+            let (s, o2) = p.overflowing_add(m0);
+            kani::assume(!o2 && s == li);
             let (m, mf) = <Modulo<$l, $r> as CheckedBinaryOp<$l, $r, i64>>::perform_checked(l, r);
             assert!(!mf);
             assert!(m == m0);
@@ -148,8 +153,303 @@ c06a_inst!(c06a__add__u32_u32, c06a__sub__u32_u32, c06a__mul__u32_u32, c06a__div
 
 c06a_mod_exact!(c06a__mod_exact__u8_u8, u8, u8);
 c06a_mod_exact!(c06a__mod_exact__u16_u16, u16, u16);
-c06a_mod_exact!(c06a__mod_exact__u32_u32, u32, u32);
-c06a_mod_exact!(c06a__mod_exact__i64_u8, i64, u8);
 c06a_mod_exact!(c06a__mod_exact__u8_i64, u8, i64);
-c06a_mod_exact!(c06a__mod_exact__i64_u32, i64, u32);
-c06a_mod_exact!(c06a__mod_exact__i64_i64, i64, i64);
+
+// ---------------------------------------------------------------------------------------------
+// C03.a  comparison kernels vs. mathematical comparison of the (zero-/sign-extended) operands
+// ---------------------------------------------------------------------------------------------
+use super::comparison_operators::{BoolAnd, BoolOr, Equals, LessThan, LessThanEquals, NotEquals};
+use crate::engine::of64;
+use ordered_float::OrderedFloat;
+
+macro_rules! c03a_cmp {
+    ($name:ident, $t:ty, $u:ty) => {
+        #[cfg_attr(kani, kani::proof)]
+        pub fn $name() {
+            let t: $t = kani::any();
+            let u: $u = kani::any();
+            let (a, b) = (t as i128, u as i128);
+            assert!(<LessThan as BinaryOp<$t, $u, u8>>::perform(t, u) == (a < b) as u8);
+            assert!(<LessThanEquals as BinaryOp<$t, $u, u8>>::perform(t, u) == (a <= b) as u8);
+            assert!(<Equals as BinaryOp<$t, $u, u8>>::perform(t, u) == (a == b) as u8);
+            assert!(<NotEquals as BinaryOp<$t, $u, u8>>::perform(t, u) == (a != b) as u8);
+            kani::cover!(a < b, "lt reachable");
+            kani::cover!(a == b, "eq reachable");
+            kani::cover!(a > b, "gt reachable");
+        }
+    };
+}
+c03a_cmp!(c03a__cmp__u8_u8, u8, u8);
+c03a_cmp!(c03a__cmp__u16_u16, u16, u16);
+c03a_cmp!(c03a__cmp__u32_u32, u32, u32);
+c03a_cmp!(c03a__cmp__i64_i64, i64, i64);
+c03a_cmp!(c03a__cmp__u8_u16, u8, u16);
+c03a_cmp!(c03a__cmp__u8_u32, u8, u32);
+c03a_cmp!(c03a__cmp__u8_i64, u8, i64);
+c03a_cmp!(c03a__cmp__u16_u8, u16, u8);
+c03a_cmp!(c03a__cmp__u16_u32, u16, u32);
+c03a_cmp!(c03a__cmp__u16_i64, u16, i64);
+c03a_cmp!(c03a__cmp__u32_u8, u32, u8);
+c03a_cmp!(c03a__cmp__u32_u16, u32, u16);
+c03a_cmp!(c03a__cmp__u32_i64, u32, i64);
+c03a_cmp!(c03a__cmp__i64_u8, i64, u8);
+c03a_cmp!(c03a__cmp__i64_u16, i64, u16);
+c03a_cmp!(c03a__cmp__i64_u32, i64, u32);
+
+// total order used by the engine for floats: numeric order, -0.0 == +0.0, every NaN equal to every NaN and above +inf
+fn ref_f64_lt(a: f64, b: f64) -> bool { if a.is_nan() { false } else if b.is_nan() { true } else { a < b } }
+fn ref_f64_eq(a: f64, b: f64) -> bool { (a.is_nan() && b.is_nan()) || a == b }
+
+#[cfg_attr(kani, kani::proof)]
+pub fn c03a__cmp__of64() {
+    let a = f64::from_bits(kani::any::<u64>());
+    let b = f64::from_bits(kani::any::<u64>());
+    let (x, y): (of64, of64) = (OrderedFloat(a), OrderedFloat(b));
+    assert!(<LessThan as BinaryOp<of64, of64, u8>>::perform(x, y) == ref_f64_lt(a, b) as u8);
+    assert!(<LessThanEquals as BinaryOp<of64, of64, u8>>::perform(x, y) == (ref_f64_lt(a, b) || ref_f64_eq(a, b)) as u8);
+    assert!(<Equals as BinaryOp<of64, of64, u8>>::perform(x, y) == ref_f64_eq(a, b) as u8);
+    assert!(<NotEquals as BinaryOp<of64, of64, u8>>::perform(x, y) == !ref_f64_eq(a, b) as u8);
+    kani::cover!(a.is_nan() && !b.is_nan(), "NaN operand reachable");
+    kani::cover!(a < b, "lt reachable");
+}
+
+#[cfg_attr(kani, kani::proof)]
+pub fn c03a__bool_and_or() {
+    // predicate bytes are 0/1 (every comparison kernel above returns `bool as u8`)
+    let l: u8 = kani::any();
+    let r: u8 = kani::any();
+    kani::assume(l <= 1 && r <= 1);
+    assert!(<BoolAnd as BinaryOp<u8, u8, u8>>::perform(l, r) == ((l != 0) && (r != 0)) as u8);
+    assert!(<BoolOr as BinaryOp<u8, u8, u8>>::perform(l, r) == ((l != 0) || (r != 0)) as u8);
+    kani::cover!(l == 1 && r == 0, "mixed operands reachable");
+}
+
+// ---------------------------------------------------------------------------------------------
+// C04.a  accumulation kernels vs. i128 / IEEE reference
+// ---------------------------------------------------------------------------------------------
+use super::aggregate::{Aggregator as AggTrait, CheckedAggregator, Count, MaxF64, MaxI64, MinF64, MinI64, SumF64, SumI64};
+
+macro_rules! c04a_sum_checked {
+    ($name:ident, $t:ty) => {
+        #[cfg_attr(kani, kani::proof)]
+        pub fn $name() {
+            let acc: i64 = kani::any();
+            let v: $t = kani::any();
+            let (res, flag) = <SumI64 as CheckedAggregator<$t, i64>>::accumulate_checked(acc, v);
+            let exact = acc as i128 + v as i128;
+            let fits = exact >= i64::MIN as i128 && exact <= i64::MAX as i128;
+            assert!(flag == !fits);
+            if !flag { assert!(res as i128 == exact); }
+            let acc2: i64 = kani::any();
+            let (res2, flag2) = <SumI64 as CheckedAggregator<$t, i64>>::combine_checked(acc, acc2);
+            let exact2 = acc as i128 + acc2 as i128;
+            let fits2 = exact2 >= i64::MIN as i128 && exact2 <= i64::MAX as i128;
+            assert!(flag2 == !fits2);
+            if !flag2 { assert!(res2 as i128 == exact2); }
+            assert!(<SumI64 as AggTrait<$t, i64>>::unit() == 0);
+            kani::cover!(flag, "overflow reachable");
+            kani::cover!(!flag && v as i128 != 0, "plain accumulation reachable");
+        }
+    };
+}
+c04a_sum_checked!(c04a__sum_checked__u8, u8);
+c04a_sum_checked!(c04a__sum_checked__u16, u16);
+c04a_sum_checked!(c04a__sum_checked__u32, u32);
+c04a_sum_checked!(c04a__sum_checked__i64, i64);
+
+macro_rules! c04a_minmax {
+    ($name:ident, $t:ty) => {
+        #[cfg_attr(kani, kani::proof)]
+        pub fn $name() {
+            let acc: i64 = kani::any();
+            let v: $t = kani::any();
+            let vi = v as i64;
+            let mx = <MaxI64 as AggTrait<$t, i64>>::accumulate(acc, v);
+            let mn = <MinI64 as AggTrait<$t, i64>>::accumulate(acc, v);
+            assert!(mx == if acc >= vi { acc } else { vi });
+            assert!(mn == if acc <= vi { acc } else { vi });
+            // unit is the identity of accumulate (so that the first row of a group decides)
+            assert!(<MaxI64 as AggTrait<$t, i64>>::accumulate(<MaxI64 as AggTrait<$t, i64>>::unit(), v) == vi);
+            assert!(<MinI64 as AggTrait<$t, i64>>::accumulate(<MinI64 as AggTrait<$t, i64>>::unit(), v) == vi);
+            let acc2: i64 = kani::any();
+            assert!(<MaxI64 as AggTrait<$t, i64>>::combine(acc, acc2) == if acc >= acc2 { acc } else { acc2 });
+            assert!(<MinI64 as AggTrait<$t, i64>>::combine(acc, acc2) == if acc <= acc2 { acc } else { acc2 });
+            kani::cover!(acc < vi, "new maximum reachable");
+            kani::cover!(acc > vi, "new minimum reachable");
+        }
+    };
+}
+c04a_minmax!(c04a__minmax__u8, u8);
+c04a_minmax!(c04a__minmax__u16, u16);
+c04a_minmax!(c04a__minmax__u32, u32);
+c04a_minmax!(c04a__minmax__i64, i64);
+
+#[cfg_attr(kani, kani::proof)]
+pub fn c04a__count() {
+    let acc: u32 = kani::any();
+    let v: i64 = kani::any();
+    // bound: a group of fewer than 2^32-1 rows (u32 counter; 4G rows in one partition is outside the claim)
+    kani::assume(acc < u32::MAX);
+    assert!(<Count as AggTrait<i64, u32>>::accumulate(acc, v) == acc + 1);
+    assert!(<Count as AggTrait<u8, u32>>::accumulate(acc, 0u8) == acc + 1);
+    assert!(<Count as AggTrait<i64, u32>>::unit() == 0);
+    let acc2: u32 = kani::any();
+    kani::assume(acc as u64 + acc2 as u64 <= u32::MAX as u64);
+    assert!(<Count as AggTrait<i64, u32>>::combine(acc, acc2) as u64 == acc as u64 + acc2 as u64);
+    kani::cover!(acc > 0 && acc2 > 0, "non-trivial combine reachable");
+}
+
+#[cfg_attr(kani, kani::proof)]
+pub fn c04a__minmax_f64() {
+    // value domain: every f64 except NaN (NaN payloads are the engine's NULL marker and never reach an accumulator
+    // of a present row), *including* +-inf and -0.0
+    let a = f64::from_bits(kani::any::<u64>());
+    let v = f64::from_bits(kani::any::<u64>());
+    kani::assume(!a.is_nan() && !v.is_nan());
+    let mx = <MaxF64 as AggTrait<of64, of64>>::accumulate(OrderedFloat(a), OrderedFloat(v)).0;
+    let mn = <MinF64 as AggTrait<of64, of64>>::accumulate(OrderedFloat(a), OrderedFloat(v)).0;
+    assert!(mx == if a >= v { a } else { v });
+    assert!(mn == if a <= v { a } else { v });
+    // unit must be the identity: the maximum of a group {v} is v, for every v of the value domain
+    let u_max = <MaxF64 as AggTrait<of64, of64>>::unit();
+    let u_min = <MinF64 as AggTrait<of64, of64>>::unit();
+    assert!(<MaxF64 as AggTrait<of64, of64>>::accumulate(u_max, OrderedFloat(v)).0 == v);
+    assert!(<MinF64 as AggTrait<of64, of64>>::accumulate(u_min, OrderedFloat(v)).0 == v);
+    let s = <SumF64 as AggTrait<of64, of64>>::accumulate(OrderedFloat(a), OrderedFloat(v)).0;
+    assert!(s == a + v || (s.is_nan() && (a + v).is_nan()));
+    assert!(<SumF64 as AggTrait<of64, of64>>::unit().0 == 0.0);
+    kani::cover!(v == f64::NEG_INFINITY, "-inf reachable");
+    kani::cover!(a < v, "new maximum reachable");
+}
+
+// ---------------------------------------------------------------------------------------------
+// C05.a  Comparator impls: cmp / cmp_eq / ordering mutually consistent, total, direction correct
+// ---------------------------------------------------------------------------------------------
+use super::comparator::{CmpGreaterThan, CmpLessThan, Comparator};
+use std::cmp::Ordering;
+
+macro_rules! c05a_cmp_int {
+    ($name:ident, $t:ty) => {
+        #[cfg_attr(kani, kani::proof)]
+        pub fn $name() {
+            let a: $t = kani::any();
+            let b: $t = kani::any();
+            assert!(<CmpLessThan as Comparator<$t>>::cmp(a, b) == (a < b));
+            assert!(<CmpLessThan as Comparator<$t>>::cmp_eq(a, b) == (a <= b));
+            assert!(<CmpLessThan as Comparator<$t>>::ordering(a, b) == if a < b { Ordering::Less } else if a == b { Ordering::Equal } else { Ordering::Greater });
+            assert!(<CmpLessThan as Comparator<$t>>::is_less_than());
+            assert!(<CmpGreaterThan as Comparator<$t>>::cmp(a, b) == (a > b));
+            assert!(<CmpGreaterThan as Comparator<$t>>::cmp_eq(a, b) == (a >= b));
+            assert!(<CmpGreaterThan as Comparator<$t>>::ordering(a, b) == if a > b { Ordering::Less } else if a == b { Ordering::Equal } else { Ordering::Greater });
+            assert!(!<CmpGreaterThan as Comparator<$t>>::is_less_than());
+            kani::cover!(a < b, "lt reachable");
+            kani::cover!(a == b, "eq reachable");
+        }
+    };
+}
+c05a_cmp_int!(c05a__comparator__u8, u8);
+c05a_cmp_int!(c05a__comparator__u16, u16);
+c05a_cmp_int!(c05a__comparator__u32, u32);
+c05a_cmp_int!(c05a__comparator__u64, u64);
+c05a_cmp_int!(c05a__comparator__i64, i64);
+
+#[cfg_attr(kani, kani::proof)]
+pub fn c05a__comparator__of64() {
+    let a = f64::from_bits(kani::any::<u64>());
+    let b = f64::from_bits(kani::any::<u64>());
+    let (x, y): (of64, of64) = (OrderedFloat(a), OrderedFloat(b));
+    let lt = ref_f64_lt(a, b);
+    let eq = ref_f64_eq(a, b);
+    assert!(<CmpLessThan as Comparator<of64>>::cmp(x, y) == lt);
+    assert!(<CmpLessThan as Comparator<of64>>::cmp_eq(x, y) == (lt || eq));
+    assert!(<CmpLessThan as Comparator<of64>>::ordering(x, y) == if lt { Ordering::Less } else if eq { Ordering::Equal } else { Ordering::Greater });
+    assert!(<CmpGreaterThan as Comparator<of64>>::cmp(x, y) == (!lt && !eq));
+    assert!(<CmpGreaterThan as Comparator<of64>>::cmp_eq(x, y) == !lt);
+    assert!(<CmpGreaterThan as Comparator<of64>>::ordering(x, y) == if lt { Ordering::Greater } else if eq { Ordering::Equal } else { Ordering::Less });
+    kani::cover!(a.is_nan() && !b.is_nan(), "NaN (in-band NULL) reachable: sorts last ascending / first descending");
+    kani::cover!(lt, "lt reachable");
+}
+
+fn ascii_str<'a>(buf: &'a [u8; 2], len: usize) -> &'a str {
+    unsafe { std::str::from_utf8_unchecked(&buf[..len]) }
+}
+
+// Option<&str> sort keys (strings of <= 2 ASCII bytes; longer strings only repeat the byte-wise loop of str::cmp)
+#[cfg_attr(kani, kani::proof)]
+#[cfg_attr(kani, kani::unwind(4))]
+pub fn c05a__comparator__opt_str() {
+    let b1: [u8; 2] = kani::any();
+    let b2: [u8; 2] = kani::any();
+    let (l1, l2): (usize, usize) = (kani::any(), kani::any());
+    kani::assume(l1 <= 2 && l2 <= 2 && b1[0] < 128 && b1[1] < 128 && b2[0] < 128 && b2[1] < 128);
+    let (n1, n2): (bool, bool) = (kani::any(), kani::any());
+    let x: Option<&str> = if n1 { None } else { Some(ascii_str(&b1, l1)) };
+    let y: Option<&str> = if n2 { None } else { Some(ascii_str(&b2, l2)) };
+    // reference: ascending = byte-wise string order, NULL after every value; descending = exact reverse
+    let r: Ordering = match (x, y) {
+        (Some(a), Some(b)) => a.as_bytes().cmp(b.as_bytes()),
+        (Some(_), None) => Ordering::Less,
+        (None, Some(_)) => Ordering::Greater,
+        (None, None) => Ordering::Equal,
+    };
+    assert!(<CmpLessThan as Comparator<Option<&str>>>::ordering(x, y) == r);
+    assert!(<CmpLessThan as Comparator<Option<&str>>>::cmp(x, y) == (r == Ordering::Less));
+    assert!(<CmpLessThan as Comparator<Option<&str>>>::cmp_eq(x, y) == (r != Ordering::Greater));
+    assert!(<CmpGreaterThan as Comparator<Option<&str>>>::cmp(x, y) == (r == Ordering::Greater));
+    assert!(<CmpGreaterThan as Comparator<Option<&str>>>::cmp_eq(x, y) == (r != Ordering::Less));
+    assert!(<CmpGreaterThan as Comparator<Option<&str>>>::ordering(x, y) == r.reverse());
+    kani::cover!(n1 && !n2, "NULL vs value reachable");
+    kani::cover!(!n1 && !n2 && l1 == 2 && l2 == 2 && b1[0] == b2[0] && b1[1] < b2[1], "second-byte decision reachable");
+}
+
+#[cfg_attr(kani, kani::proof)]
+#[cfg_attr(kani, kani::unwind(4))]
+pub fn c05a__comparator__str() {
+    let b1: [u8; 2] = kani::any();
+    let b2: [u8; 2] = kani::any();
+    let (l1, l2): (usize, usize) = (kani::any(), kani::any());
+    kani::assume(l1 <= 2 && l2 <= 2 && b1[0] < 128 && b1[1] < 128 && b2[0] < 128 && b2[1] < 128);
+    let (x, y) = (ascii_str(&b1, l1), ascii_str(&b2, l2));
+    let r = x.as_bytes().cmp(y.as_bytes());
+    assert!(<CmpLessThan as Comparator<&str>>::ordering(x, y) == r);
+    assert!(<CmpLessThan as Comparator<&str>>::cmp(x, y) == (r == Ordering::Less));
+    assert!(<CmpLessThan as Comparator<&str>>::cmp_eq(x, y) == (r != Ordering::Greater));
+    assert!(<CmpGreaterThan as Comparator<&str>>::ordering(x, y) == r.reverse());
+    assert!(<CmpGreaterThan as Comparator<&str>>::cmp(x, y) == (r == Ordering::Greater));
+    assert!(<CmpGreaterThan as Comparator<&str>>::cmp_eq(x, y) == (r != Ordering::Less));
+    kani::cover!(r == Ordering::Less && l1 == 2, "lt reachable");
+}
+
+use crate::mem_store::Val;
+fn any_val() -> Val<'static> {
+    let k: u8 = kani::any();
+    kani::assume(k < 4);
+    match k {
+        0 => Val::Null,
+        1 => Val::Integer(kani::any()),
+        2 => Val::Float(OrderedFloat(f64::from_bits(kani::any::<u64>()))),
+        _ => Val::Bool(kani::any()),
+    }
+}
+
+// Val sort keys restricted to Null/Integer/Float/Bool (Str delegates to str::cmp, covered above)
+#[cfg_attr(kani, kani::proof)]
+#[cfg_attr(kani, kani::unwind(2))]
+pub fn c05a__comparator__val() {
+    let x = any_val();
+    let y = any_val();
+    let asc = <CmpLessThan as Comparator<Val>>::ordering(x, y);
+    let desc = <CmpGreaterThan as Comparator<Val>>::ordering(x, y);
+    assert!(desc == asc.reverse());
+    assert!(<CmpLessThan as Comparator<Val>>::cmp(x, y) == (asc == Ordering::Less));
+    assert!(<CmpLessThan as Comparator<Val>>::cmp_eq(x, y) == (asc != Ordering::Greater));
+    assert!(<CmpGreaterThan as Comparator<Val>>::cmp(x, y) == (asc == Ordering::Greater));
+    assert!(<CmpGreaterThan as Comparator<Val>>::cmp_eq(x, y) == (asc != Ordering::Less));
+    // antisymmetry + NULL last ascending
+    assert!(<CmpLessThan as Comparator<Val>>::ordering(y, x) == asc.reverse());
+    if let (Val::Null, Val::Integer(_)) = (x, y) { assert!(asc == Ordering::Greater); }
+    if let (Val::Null, Val::Float(_)) = (x, y) { assert!(asc == Ordering::Greater); }
+    if let (Val::Integer(a), Val::Integer(b)) = (x, y) { assert!(asc == a.cmp(&b)); }
+    kani::cover!(matches!(x, Val::Null) && matches!(y, Val::Integer(_)), "NULL vs int reachable");
+    kani::cover!(matches!(x, Val::Float(_)) && matches!(y, Val::Float(_)), "float vs float reachable");
+}
